@@ -514,13 +514,13 @@ def perms_of(r, n, count):
 
 # ----------------------------------------------------------------------------- public-API leg (quick and thorough)
 def api_flags():
-    """-O0 -g1 (with the sanitizers): the method headers compile in ~35 s"""
+    """-O0 -g1 (with the sanitizers): all of tapkee.hpp through the public chain API compiles in ~60 s"""
     fl = [f for f in vlib.HARNESS_FLAGS if f not in ("-O1", "-g")] + ["-O0", "-g1"]
     return fl
 
 
 def api_leg(ctx, binary, ncases):
-    """Isomap / Landmark Isomap / Laplacian Eigenmaps instantiated as tapkee::embed does, i.e. through
+    """Isomap / Landmark Isomap / Laplacian Eigenmaps through the public API (tapkee::with(..).with*().embedRange), i.e. through
     ImplementationBase::find_neighbors_with and parameters[check_connectivity] (methods/base.hpp), on distinct-sample data
     whose k-NN graph is mostly NOT strongly connected at the requested k.
     flag on / default : no throw, finite embedding, finite matrix at the eigensolver; LE: every row of the Laplacian has at
@@ -542,7 +542,7 @@ def api_leg(ctx, binary, ncases):
                   "nm": METHODS[(i // 9) % 3], "k": r.choice([3, 3, 4]), "vs": G.vantage_stream(r, n)})
         cases.append(c)
     def line_of(c):
-        return "api meth=%s nm=%s k=%d cc=%s %s" % (c["meth"], c["nm"], c["k"], c["cc"],
+        return "callers meth=%s nm=%s lr=1 d=2 k=%d cc=%s %s" % (c["meth"], c["nm"], c["k"], c["cc"],
                                                      G.case_line("x", {k: v for k, v in c.items() if k in ("cb", "metric", "pts", "vs")})[2:])
     lines = [line_of(c) for c in cases]
     outs = ctx.run_impl_cases(binary, lines, env=OMP1, timeout=900)
@@ -592,21 +592,118 @@ def api_leg(ctx, binary, ncases):
                     if sc0 == "0":
                         ctx.stat("api:flag-observed-to-matter")
             else:
-                ctx.stat("api:agree")
+                # Laplacian Eigenmaps without the check: it must still run on the k requested
+                kreq = min(c["k"], G.size(c) - 1)
+                if not ok or int(f.get("minnz", "-1")) < kreq:
+                    report(ctx, "fail", "api:le-flag-off", "Laplacian Eigenmaps with check_connectivity=false throws / is non-finite / "
+                           "has a Laplacian row with fewer than the %d requested neighbours (%s)" % (kreq, o[:120]), line,
+                           {"impl": o, "model": mo})
+                else:
+                    ctx.stat("api:agree")
+        evals_oracle(ctx, c, line, o, f)
+
+
+CALLERS = ["klle", "kltsa", "hlle", "npe", "lltsa", "lpp", "le", "isomap", "lisomap", "spe", "ms"]
+
+
+def evals_oracle(ctx, c, line, o, f):
+    """callback-evaluation count: with the flag on/default the method must have performed at least the evaluations of
+    find_neighbors(nm, .., k, true) on the callback it searches with (same deterministic search); a method that bypasses the
+    flag performs those of (.., false) only.  Discriminating when need1 >= 2*need0 (the check raises k at least once)."""
+    try:
+        evals, need1, need0 = int(f["evals"]), int(f["need1"]), int(f["need0"])
+    except (KeyError, ValueError):
+        report(ctx, "broken", "api:evals-missing", "the api harness did not report evaluation counts: %s" % o[:120], line, {"impl": o},
+               broken="harness c03_callers protocol")
+        return
+    power = need1 >= 2 * need0
+    if c["cc"] in ("1", "default"):
+        if evals < need1:
+            report(ctx, "fail", "api:caller-bypasses-check:" + c["meth"],
+                   "%s with check_connectivity=%s made %d callback evaluations, fewer than the %d of find_neighbors(.., k, true): "
+                   "the method does not search with the check (a %d-neighbour search alone costs %d)"
+                   % (c["meth"], c["cc"], evals, need1, c["k"], need0), line, {"impl": o})
+        elif power:
+            ctx.stat("callers:%s:flag-on-search-with-check-observed" % c["meth"])
+    else:
+        if evals < need0:
+            report(ctx, "broken", "api:evals-below-one-search", "correspondence c03_callers: %s made fewer callback evaluations (%d) than "
+                   "one search (%d)" % (c["meth"], evals, need0), line, {"impl": o}, broken="correspondence c03_callers (evaluation counts)")
+        elif power and evals < need1:
+            ctx.stat("callers:%s:flag-off-observed-to-matter" % c["meth"])
+
+
+def data_small_outlier(r, n):
+    """distinct, tie-free 2-D points: one loose cluster in [0,5000]^2 and 1-2 far outliers; coordinates small enough for the
+    linear kernel to stay exact (kernel searches)"""
+    for _ in range(40):
+        pts = []
+        seen = set()
+        while len(pts) < n - 2:
+            p = (r.below(5000), r.below(5000))
+            if p not in seen:
+                seen.add(p)
+                pts.append(list(p))
+        pts.append([100000 + r.below(1000), 90000 + r.below(1000)])
+        if r.chance(1, 2):
+            pts.append([-70000 - r.below(1000), 120000 + r.below(1000)])
+        pts = r.shuffle(pts)
+        if tie_free(pts, "L1"):
+            return {"cb": "plain", "metric": "L1", "pts": pts}
+    return None
+
+
+def callers_leg(ctx, binary, reps):
+    """every caller of find_neighbors_with (11 methods) through the public API, flag on / default / off"""
+    r = ctx.rng
+    cases = []
+    for rep in range(reps):
+        for i, meth in enumerate(CALLERS):
+            sp = data_small_outlier(r.fork(), r.range(12, 16))
+            if sp is None:
+                continue
+            for cc in (["1", "0"] if (rep + i) % 2 else ["default", "0"]):
+                c = dict(sp)
+                c.update({"meth": meth, "cc": cc, "k": r.choice([3, 4])})
+                cases.append(c)
+    lines = ["callers meth=%s k=%d cc=%s %s" % (c["meth"], c["k"], c["cc"],
+                                                G.case_line("x", {k: v for k, v in c.items() if k in ("cb", "metric", "pts")})[2:])
+             for c in cases]
+    outs = ctx.run_impl_cases(binary, lines, env=OMP1, timeout=1800)
+    for c, line, o in zip(cases, lines, outs):
+        ctx.count(line, True)
+        ctx.stat("callers:%s:cc=%s" % (c["meth"], c["cc"]))
+        ctx.cov["traces_validated_against_impl"] += 1
+        if o.startswith("abort:"):
+            report(ctx, "fail", "callers:abort:%s:%s" % (c["meth"], o[6:60]), "%s through the public API aborts (%s)" % (c["meth"], o[6:]),
+                   line, {"impl": o})
+            continue
+        f = fields_of(o)
+        if f.get("obs") != "ok":
+            ctx.stat("callers:%s:throws(%s)" % (c["meth"], f.get("obs", "?")[6:40]))
+            if c["cc"] != "0" and c["meth"] in ("isomap", "lisomap"):
+                report(ctx, "fail", "api:check-connectivity-ignored:" + c["meth"], "%s with check_connectivity=%s on distinct samples "
+                       "throws (%s)" % (c["meth"], c["cc"], o[:120]), line, {"impl": o})
+        evals_oracle(ctx, c, line, o, f)
+    dist = ctx.extra.get("distribution", {})
+    weak = [m for m in CALLERS if not dist.get("callers:%s:flag-on-search-with-check-observed" % m)]
+    if weak and not ctx.failures:
+        ctx.broken("callers-leg-without-power", "correspondence c03_callers (flag observed per method)",
+                   "no discriminating flag-on case (k raised at least once) was judged for: %s" % ",".join(weak))
 
 
 # ----------------------------------------------------------------------------- driver
 def correspond(ctx):
     from concurrent.futures import ThreadPoolExecutor
     with ThreadPoolExecutor(max_workers=2) as ex:
-        fut_api = ex.submit(ctx.build_harness, "c03_api.cpp", None, common_flag(), api_flags())
+        fut_api = ex.submit(ctx.build_harness, "c03_callers.cpp", None, common_flag(), api_flags())
         binary, log = ctx.build_harness("c03_conn.cpp", extra=common_flag())
         api_binary, api_log = fut_api.result()
     if not binary:
         ctx.broken("harness-build", "harness c03_conn.cpp", "harness does not compile against the repository: " + log[-1500:])
         return
     if not api_binary:
-        ctx.broken("harness-build:api", "harness c03_api.cpp", "harness does not compile against the repository: " + api_log[-1500:])
+        ctx.broken("harness-build:api", "harness c03_callers.cpp", "harness does not compile against the repository: " + api_log[-1500:])
     ctx.seen_sigs = set()
     r = ctx.rng
     quick = ctx.tier == "quick"
@@ -714,6 +811,7 @@ def correspond(ctx):
             judge_fn(ctx, binary, sub[i:i + 60], name)
     if api_binary and not (rp and rp.get("case")):
         api_leg(ctx, api_binary, 36 if quick else 300)
+        callers_leg(ctx, api_binary, 1 if quick else 10)
     if not quick:
         from checks.c02 import isomap_leg
         isomap_leg(ctx, 300, "c03")
